@@ -81,6 +81,9 @@ class Obligation:
         return s.to_smt2()
 
 
+FEAS_CACHE = {}
+
+
 class PathEnd(Exception):
     """this path is finished (infeasible, cut at a loop back-edge, or raised)"""
 
@@ -88,11 +91,14 @@ class PathEnd(Exception):
 class Path:
     """One execution path.  `prescribed` is the decision prefix to follow."""
 
-    def __init__(self, prescribed, worklist, feas_timeout_ms=2000):
+    def __init__(self, prescribed, worklist, feas_timeout_ms=int(__import__('os').environ.get('VERIF_FEAS_MS', '600'))):
         self.prescribed = list(prescribed)
         self.taken = []
         self.worklist = worklist
         self.pc = []  # list of z3 Bool (assumptions)
+        self.defs = set()  # indices of pc entries that are definitional
+        self.known = {}
+        self.pc_ids = set()
         self.heap = {}  # Ref.id -> cell
         self.obligations = []
         self.feas_timeout = feas_timeout_ms
@@ -100,6 +106,7 @@ class Path:
         self.ghost = {}
         self._solver = None
         NONNEG.clear()
+        reset_fresh()
 
     # ---- heap
     def alloc(self, cell):
@@ -111,27 +118,62 @@ class Path:
         return self.heap[ref.id]
 
     # ---- assumptions / obligations
-    def assume(self, z):
+    def assume(self, z, definitional=False):
         if z3.is_true(z):
             return
         note_nonneg(z)
+        if z.get_id() in self.pc_ids:
+            return
+        self.pc_ids.add(z.get_id())
+        self.note_known(z, True)
         self.pc.append(z)
+        if definitional:
+            self.defs.add(len(self.pc) - 1)
+
+    def note_known(self, z, val):
+        """syntactic facts: term id -> truth value on this path (used to prune spec macros)"""
+        if z3.is_not(z):
+            return self.note_known(z.arg(0), not val)
+        if (z3.is_and(z) and val) or (z3.is_or(z) and not val):
+            for c in z.children():
+                self.note_known(c, val)
+            return
+        self.known[z.get_id()] = (val, z)  # keep the term alive: z3 reuses ids of collected terms
+
+    def known_value(self, z):
+        if z3.is_not(z):
+            v = self.known_value(z.arg(0))
+            return None if v is None else not v
+        e = self.known.get(z.get_id())
+        return None if e is None else e[0]
 
     def feasible(self, extra=None):
+        """may the path continue?  definitional assumptions (unfoldings of spec functions)
+        are left out: that only makes more paths look feasible, which is sound."""
+        core = [a for i, a in enumerate(self.pc) if i not in self.defs]
+        # fresh names are deterministic per path, so the re-executed prefix of a later path builds
+        # the very same (hash-consed) terms: cache by term ids, keeping the terms alive
+        key = (tuple(a.get_id() for a in core), None if extra is None else extra.get_id())
+        hit = FEAS_CACHE.get(key)
+        if hit is not None:
+            return hit[0]
         s = z3.Solver()
         s.set("timeout", self.feas_timeout)
-        for a in self.pc:
+        for a in core:
             s.add(a)
         if extra is not None:
             s.add(extra)
-        r = s.check()
-        return r != z3.unsat
+        r = s.check() != z3.unsat
+        FEAS_CACHE[key] = (r, core, extra)
+        return r
 
     def oblige(self, name, kind, goal, where="", meta=None):
-        g = z3.simplify(goal) if z3.is_expr(goal) else z3.BoolVal(bool(goal))
-        if z3.is_true(g):
+        g = goal if z3.is_expr(goal) else z3.BoolVal(bool(goal))
+        if z3.is_true(z3.simplify(g)):
             self.obligations.append(Obligation(name, kind, [], z3.BoolVal(True), where, meta=meta))
             return
+        # NB: the un-simplified term is kept: z3.simplify introduces internal symbols
+        # (seq.nth_i / seq.nth_u) that cvc5 cannot read
         self.obligations.append(Obligation(name, kind, self.pc, g, where, meta=meta))
 
     # ---- decisions
@@ -160,8 +202,10 @@ class Path:
         if z3.is_false(c):
             return False
         choice = self.decide(2, lambda i: self.feasible(c if i == 0 else z3.Not(c)))
+        # NB: the original (un-simplified) term is recorded, so that the same test written in a
+        # contract clause is recognised syntactically (simplify rewrites substr(s,0,1) to at(s,0))
         if choice == 0:
-            self.assume(c)
+            self.assume(cond_z)
             return True
-        self.assume(z3.Not(c))
+        self.assume(z3.Not(cond_z))
         return False
